@@ -309,6 +309,8 @@ func runC11(c *Ctx) {
 	c11Guards(c, byPath)
 	c11SoleProducer(c)
 	fsmResponseChecked(c, "R3")
+	c.Rule("R8", "request state is per request: handlers do not write to variables of their factory", 10)
+	handlerStatePerRequest(c, "R8")
 	checkUnlocks(c, "R5", []string{"balloon", "balloon/hyper", "consensus", "api/apihttp", "api/mgmthttp"})
 	hyperLeafListDiscipline(c, "R6")
 	lruDiscipline(c, "R7")
@@ -656,4 +658,94 @@ func inCycleCond(k Cond) bool {
 		return inCycle(in.Block())
 	}
 	return true
+}
+
+// handlerStatePerRequest: an HTTP handler runs concurrently for every request in flight; whatever
+// it decodes the request into must be its own. A handler closure may read what its factory
+// captured (the API object, loggers) but must not write to a captured variable nor hand its
+// address on (json.Decode(&captured)): two overlapping requests would share it.
+func handlerStatePerRequest(c *Ctx, rule string) {
+	p := c.P
+	n := 0
+	for _, h := range registeredHandlers(p) {
+		fns := append([]*ssa.Function{h.fn}, Anons(h.fn)...)
+		bad := 0
+		for _, fn := range fns {
+			for _, fv := range fn.FreeVars {
+				// only variables of the factory (declared outside the handler) matter
+				b := freeVarBinding(fv)
+				if al, ok := b.(*ssa.Alloc); ok && (al.Parent() == h.fn || isNested(al.Parent(), h.fn)) {
+					continue
+				}
+				if fv.Referrers() == nil {
+					continue
+				}
+				for _, r := range *fv.Referrers() {
+					switch u := r.(type) {
+					case *ssa.UnOp:
+						continue // load
+					case *ssa.Store:
+						if u.Addr == ssa.Value(fv) {
+							bad++
+							c.Fail(rule, "handler "+h.path+":shared-state", u.Pos(), "the handler assigns to "+fv.Name()+", a variable of its factory shared by all requests in flight")
+						}
+					case *ssa.MakeClosure:
+						continue // passed on to a nested closure (checked there)
+					case *ssa.FieldAddr, *ssa.IndexAddr:
+						if writesThrough(r.(ssa.Value)) {
+							bad++
+							c.Fail(rule, "handler "+h.path+":shared-state", r.Pos(), "the handler writes into "+fv.Name()+", a variable of its factory shared by all requests in flight")
+						}
+					default:
+						if cc := callCommon(r); cc != nil {
+							bad++
+							c.Fail(rule, "handler "+h.path+":shared-state", r.Pos(), "the handler hands the address of "+fv.Name()+" (a variable of its factory, shared by all requests in flight) to "+calleeName(cc)+": overlapping requests decode into the same object")
+						}
+					}
+				}
+			}
+		}
+		n++
+		if bad == 0 {
+			c.Ok(rule, "handler "+h.path+":shared-state", h.fn.Pos(), "request state is local to the handler invocation")
+		}
+	}
+	if n == 0 {
+		c.Fail(rule, "handlers:shared-state", 0, "no registered handler found")
+	}
+}
+
+func isNested(f, in *ssa.Function) bool {
+	for f != nil {
+		if f == in {
+			return true
+		}
+		f = f.Parent()
+	}
+	return false
+}
+
+// writesThrough: the address value is stored through (directly or after further field/index selection) or escapes into a call.
+func writesThrough(v ssa.Value) bool {
+	if v.Referrers() == nil {
+		return false
+	}
+	for _, r := range *v.Referrers() {
+		switch u := r.(type) {
+		case *ssa.Store:
+			if u.Addr == v {
+				return true
+			}
+		case *ssa.FieldAddr, *ssa.IndexAddr:
+			if writesThrough(r.(ssa.Value)) {
+				return true
+			}
+		case *ssa.UnOp:
+		default:
+			if callCommon(r) != nil {
+				return true
+			}
+		}
+	}
+	return false
 }
